@@ -429,3 +429,48 @@ def run_collate(ctx: Ctx) -> None:
                         return False, "string fields are not collected in sample order"
                     return True, ""
                 _guard(ctx, "T19.collate", f"{name}:samples={nsamples}", fC, f"field type={name} samples={nsamples}", th)
+
+
+def run_mixed_axes(ctx: Ctx) -> None:
+    """Operations on several flow fields: the operands' vector representations must agree (refused otherwise), for batches and single fields."""
+    prog = ctx.prog
+    F = "deepali.data.flow"
+    f1 = prog.func(F, "FlowField._torch_function_axes")
+    fN = prog.func(F, "FlowFields._torch_function_axes")
+    ctx.fn(f1)
+    ctx.fn(fN)
+    ctx.rule("T19.mixed-axes", "a torch function applied to two flow fields given in different axes (WORLD / CUBE_CORNERS / GRID, either operand "
+                               "first; torch.add, torch.sub, torch.where; FlowFields batches and single FlowField objects) is refused with "
+                               "ValueError — a result labelled with one operand's axes would hold vectors of the other representation; with "
+                               "equal axes the result keeps them")
+    for single in (False, True):
+        for func, mk in (("torch.add", lambda a, b: (a, b)), ("torch.sub", lambda a, b: (b, a)),
+                         ("torch.where", lambda a, b: (symt.ones([1]).type(symt.BOOL), a, b))):
+            def th(single=single, func=func, mk=mk):
+                env = DEnv(ctx, flow=True, N=1 if single else 2)
+                it = env.it
+                cls = env.F1 if single else env.FF
+                grids = env.grids[0] if single else tuple(env.grids[:env.N])
+                data = env.data[0] if single else env.data
+
+                def field(axname):
+                    return it.new(cls, data.clone(), grids, it.enum(env.Axes, axname))
+                disp = it.getattr(ClassVal(cls), "__torch_function__")
+                for a_ax, b_ax in (("WORLD", "CUBE_CORNERS"), ("GRID", "WORLD")):
+                    a, b = field(a_ax), field(b_ax)
+                    try:
+                        r = it.call_value(disp, [External(func), (), tuple(mk(a, b)), {}], {})
+                    except InterpError as e:
+                        if e.exc_type == "ValueError":
+                            continue
+                        raise
+                    lab = r.attrs.get("_axes") if isinstance(r, STObj) else None
+                    return False, (f"{func} of {'FlowField' if single else 'FlowFields'} operands in {a_ax} and {b_ax} axes is accepted"
+                                   f"{' and labelled ' + lab.name if lab is not None else ''}: the result mixes two vector representations")
+                a, b = field("GRID"), field("GRID")
+                r = it.call_value(disp, [External(func), (), tuple(mk(a, b)), {}], {})
+                if not isinstance(r, STObj) or r.attrs.get("_axes") is None or r.attrs["_axes"].name != "GRID":
+                    return False, f"{func} of two operands in GRID axes does not return a flow field in GRID axes"
+                return True, ""
+            _guard(ctx, "T19.mixed-axes", f"{'FlowField' if single else 'FlowFields'}:{func}", f1 if single else fN,
+                   f"class={'FlowField' if single else 'FlowFields'} func={func} operands with different axes", th)
